@@ -6,7 +6,7 @@ import itertools
 from typing import Callable, Dict, List, Optional, Sequence, Set, Tuple
 
 from ..absval import UNKNOWN, Evaluator, walk
-from ..astutil import call_name, calls_in, kwarg, store_targets, unparse, walk_shallow
+from ..astutil import call_name, calls_in, kwarg, skippable_calls, store_targets, unparse, walk_shallow
 from ..cfg import CFG, CNode, Edge, LocalDefs, path_text
 from ..index import AnalysisError, ClassInfo, FuncInfo, Index
 from ..inventory import call_sites, recv_class, stores_to_attr
@@ -32,8 +32,10 @@ EXPLANATION = (
     "and the time-out test is last_active_step + timeout <= timestep with matching local/remote timeout fields, every "
     "inactive session being handed to _timeout_session; R16.7 change_user_password stores the new password only "
     "under can-perform AND user-exists AND current-password-equal, then reaches _logout_user, and _logout_user goes on "
-    "to the user's remaining sessions after ending one; R16.8 disable_user stores disabled=True only past the "
-    "not-_is_last_admin edge, _is_last_admin is `username in admins and len(admins) == 1` over the enabled admins, "
+    "to the user's remaining sessions after ending one - each logout call being evaluated unconditionally, not behind a "
+    "short circuit such as `done = done or self._logout(..)`; R16.8 disable_user stores disabled=True only past the "
+    "not-_is_last_admin edge, _is_last_admin consults the `disabled` flag (directly or through `admins`) and is "
+    "`username in admins and len(admins) == 1` over the enabled admins, "
     "and the account flags have no other writer. NOT decided: time-out tick counts over histories, behaviour of "
     "stale identifiers across service restarts and node reboots, that the terminal service on the target is running "
     "when a packet arrives (C13's receive-gate rule), and exceptions raised for unknown identifiers (C01/C05)."
@@ -1086,6 +1088,16 @@ def r16_7(ctx: Ctx) -> None:
                     problems.append("the local session of the user is not examined once a remote session matched")
             elif not local_nodes:
                 raise AnalysisError("R16.7: _logout_user has no recognisable local-session branch")
+        # the logout itself must be evaluated on every matching iteration: not behind a short circuit such as
+        # `done = done or self._logout(...)`, which stops logging out after the first success
+        for n in acts + local_nodes:
+            r_ = n.expr_root()
+            sk = skippable_calls(r_) if r_ is not None else set()
+            for c in node_calls(n):
+                if call_name(c) in ("_logout", "remote_logout", "local_logout") and id(c) in sk:
+                    problems.append(f"`{unparse(c)[:50]}` is evaluated only when what precedes it in the same expression lets it "
+                                    "(short circuit): after one successful logout the remaining sessions are skipped")
+                    wit = wit or [f"L{n.lineno}: {unparse(n.ast)[:90]}"]
         ctx.record("R16.7", ctx.key(fn, "every session of the user is ended (no exit on the first match)"), fn.loc(m.ast),
                    not problems, "after ending a matching remote session the function continues with the remaining "
                    "sessions and the local session" if not problems else "; ".join(dict.fromkeys(problems)), wit or None)
@@ -1129,11 +1141,30 @@ def r16_8(ctx: Ctx) -> None:
     lps = params_of(la)
     if not lps:
         raise AnalysisError("R16.8: _is_last_admin takes no username")
-    cases = (({}, False), ({"u": 1}, True), ({"v": 1}, False), ({"u": 1, "v": 1}, False), ({"v": 1, "w": 1}, False))
-    got = tuple(_eval_return(la, {"self.admins": d, lps[0]: "u"}, "R16.8") for d, _ in cases)
-    want = tuple(w for _, w in cases)
-    ctx.record("R16.8", ctx.key(la, "true iff the user is the only enabled admin"), la.loc(), got == want,
-               f"admins = {{}}, {{u}}, {{v}}, {{u,v}}, {{v,w}} gives {got}; required {want}")
+    # "enabled" administrators: whatever form the test takes, it has to consult the `disabled` flag (directly or through a
+    # property such as `admins`); a count that never looks at it treats a disabled administrator as a remaining one
+    def attr_closure(f: FuncInfo, depth: int = 2) -> Set[str]:
+        out: Set[str] = set()
+        for x in ast.walk(f.node):
+            if isinstance(x, ast.Attribute) and isinstance(x.ctx, ast.Load):
+                out.add(x.attr)
+                if depth > 0 and isinstance(x.value, ast.Name) and x.value.id == "self" and f.cls is not None:
+                    h = ix.find_method(f.cls, x.attr)
+                    if h is not None and h is not f and not isinstance(h.node, ast.Lambda):
+                        out |= attr_closure(h, depth - 1)
+        return out
+
+    reads = attr_closure(la)
+    if "disabled" not in reads:
+        ctx.fail("R16.8", ctx.key(la, "true iff the user is the only enabled admin"), la.loc(),
+                 f"_is_last_admin never consults `disabled` (it reads {sorted(reads & {'users', 'admins', 'is_admin', 'disabled'})}): a disabled "
+                 "administrator still counts as a remaining one, so the last *enabled* administrator can be disabled")
+    else:
+        cases = (({}, False), ({"u": 1}, True), ({"v": 1}, False), ({"u": 1, "v": 1}, False), ({"v": 1, "w": 1}, False))
+        got = tuple(_eval_return(la, {"self.admins": d, lps[0]: "u"}, "R16.8") for d, _ in cases)
+        want = tuple(w for _, w in cases)
+        ctx.record("R16.8", ctx.key(la, "true iff the user is the only enabled admin"), la.loc(), got == want,
+                   f"admins = {{}}, {{u}}, {{v}}, {{u,v}}, {{v,w}} gives {got}; required {want}")
     # admins = enabled administrators
     ad = ix.method("UserManager.admins")
     rets = [n for n in walk_shallow(ad.node) if isinstance(n, ast.Return)]
